@@ -139,6 +139,8 @@ def gen_detection(rng: Random, fields: list[str] | None = None, special: float =
             other = pick(rng, [f for f in (fields or FIELDS) if f != k0.split("|")[0]])
             v0 = d[k0]
             d["|".join([other] + chain)] = copy.deepcopy(v0)
+            if chain in ([], ["neq"]) and chance(rng, 0.35):
+                d[k0] = None  # a null value next to a value under what may become the same key
         return d
     if r < 0.80:  # list of maps
         out = []
